@@ -7,6 +7,7 @@ package main
 import (
 	"crypto/sha256"
 	"encoding/binary"
+	"fmt"
 	"math/big"
 
 	"github.com/piotrnar/gocoin/lib/btc"
@@ -206,15 +207,23 @@ func multisigScript(m int, keys [][]byte) []byte {
 	return append(s, 0xae)
 }
 
-// base1: a one-input one-output spend of (amount, pkScr).
+// shapeHook, when set (generated stream), reshapes the transaction base1 has just made — more inputs and outputs,
+// the input under test somewhere among them — BEFORE the template signs it.
+var shapeHook func(c *Case)
+
+// base1: a one-input one-output spend of (amount, pkScr) (reshaped by shapeHook in the generated stream).
 func base1(kind string, pkScr []byte, amount uint64, flags uint32) *Case {
 	ph := sha2(cat([]byte("c01-prev"), pkScr))
-	return &Case{Kind: kind, Version: 2, LockTime: 0,
+	c := &Case{Kind: kind, Version: 2, LockTime: 0,
 		Ins:   []In{{PrevHash: ph, Vout: 0, Sequence: 0xfffffffe}},
 		Outs:  []Out{{Value: amount - amount/10, Script: HexB{0x51}}},
 		Idx:   0,
 		Spent: []Out{{Value: amount, Script: pkScr}},
 		Flags: flags}
+	if shapeHook != nil {
+		shapeHook(c)
+	}
+	return c
 }
 
 func (c *Case) setSig(s []byte) { c.Ins[c.Idx].SigScript = s }
@@ -225,14 +234,32 @@ func (c *Case) setWit(items ...[]byte) {
 	}
 }
 
+// signWithTree selects what the harness's signers sign. false (the default): the digest of the SPECIFICATION's
+// message (Lean reference, refDigest) — the signature is then valid by the rules whatever the tree's sighash code
+// does, so a tree that hashes something else REJECTS A VALID spend. true: the digest the tree's own sighash
+// function returns — a tree that hashes something else then ACCEPTS a signature the rules reject (the reference
+// semantics verifies it against its own digest). On the unchanged tree both are the same bytes. The generated
+// stream draws the mode per case from the run's PRNG.
+var signWithTree bool
+
 func signLegacy(c *Case, scriptCode []byte, k *Key, ht byte) []byte {
 	var h []byte
+	if !signWithTree {
+		if d, ok := refDigest(c, fmt.Sprintf("sigl %s %d", vlib.Hex(scriptCode), ht)); ok {
+			return derSig(k.Priv, d, ht)
+		}
+	}
 	guard("SignatureHash", func() { h = buildTx(c).SignatureHash(scriptCode, c.Idx, int32(ht)) })
 	return derSig(k.Priv, h, ht)
 }
 
 func signWitV0(c *Case, scriptCode []byte, k *Key, ht byte) []byte {
 	var h []byte
+	if !signWithTree {
+		if d, ok := refDigest(c, fmt.Sprintf("sigw %s %d", vlib.Hex(scriptCode), ht)); ok {
+			return derSig(k.Priv, d, ht)
+		}
+	}
 	guard("WitnessSigHash", func() { h = buildTx(c).WitnessSigHash(scriptCode, c.Spent[c.Idx].Value, c.Idx, int32(ht)) })
 	return derSig(k.Priv, h, ht)
 }
@@ -337,9 +364,17 @@ func signTap(c *Case, g *vlib.Rng, priv []byte, annex []byte, leaf []byte, codes
 	ed.M_tapleaf_hash = leaf
 	ed.M_codeseparator_pos = codesep
 	var h []byte
-	// a panic of the tree's TaprootSigHash here is "no digest" for the SIGNER; the same input then goes through
-	// VerifyTxScript in runCase, where an escaping panic is the property failure
-	guard("TaprootSigHash", func() { h = buildTx(c).TaprootSigHash(&ed, c.Idx, ht, scriptPath) })
+	if !signWithTree {
+		a := "none"
+		if annex != nil {
+			a = vlib.Hex(annex)
+		}
+		h, _ = refDigest(c, fmt.Sprintf("sigt %s %s %d %d %s", a, vlib.Hex(leaf), codesep, ht, b01(scriptPath)))
+	} else {
+		// a panic of the tree's TaprootSigHash here is "no digest" for the SIGNER; the same input then goes through
+		// VerifyTxScript in runCase, where an escaping panic is the property failure
+		guard("TaprootSigHash", func() { h = buildTx(c).TaprootSigHash(&ed, c.Idx, ht, scriptPath) })
+	}
 	if len(h) != 32 {
 		h = make([]byte, 32)
 	}
